@@ -200,7 +200,8 @@ impl<'a> Ref<'a> {
             self.init_data(n, set);
         }
         if let Some(sc) = &d.script {
-            if self.eval(sc).is_err() {
+            // raw global scripts are opaque for the reference (generators only use harmless ones)
+            if !matches!(sc, Expr::Raw(_)) && self.eval(sc).is_err() {
                 self.error_execution();
             }
         }
